@@ -177,7 +177,7 @@ func c09GenHTTPOpt(r *Rng) string {
 
 func c09Gen(g *Gen) {
 	r := g.Rng
-	n := g.N(500, 6000)
+	n := g.N(400, 6000)
 	for i := 0; i < n; i++ {
 		lines := []string{c09GenNew(r)}
 		k := Pick(r, []int{0, 1, 2, 3, 4, 5, 6, 8, 10})
